@@ -31,6 +31,8 @@ fn seed_bytes(seed: u64, worker: u64, stream: &str) -> [u8; 32] {
 enum Case {
     Ctx { trace: String, span: String, sampled: bool },
     Text { text: String },
+    /// values the library generates itself: `random()` and `Default` of the ids and the context
+    Generated,
 }
 
 fn u128_classes() -> impl Strategy<Value = u128> {
@@ -136,8 +138,11 @@ fn near_valid() -> impl Strategy<Value = (String, u32)> {
 
 fn case_strategy(variant: &str) -> BoxedStrategy<(Case, bool)> {
     match variant {
-        "ctx" => (u128_classes(), u64_classes(), any::<bool>())
-            .prop_map(|(t, s, b)| {
+        "ctx" => (u128_classes(), u64_classes(), any::<bool>(), 0u8..100)
+            .prop_map(|(t, s, b, roll)| {
+                if roll == 0 {
+                    return (Case::Generated, false);
+                }
                 let boundary = t == 0 || t == u128::MAX || t.count_ones() == 1 || t >> 127 == 1 || s == 0 || s == u64::MAX || s.count_ones() == 1 || s >> 63 == 1;
                 (Case::Ctx { trace: format!("{:x}", t), span: format!("{:x}", s), sampled: b }, boundary)
             })
@@ -162,6 +167,7 @@ fn run_case(c: &Case) -> Vec<Viol> {
             v
         }
         Case::Text { text } => check_text(text),
+        Case::Generated => check_generated_values(),
     }
 }
 
@@ -195,6 +201,7 @@ fn worker(args: &[String]) -> i32 {
             }
             let label = match &c {
                 Case::Ctx { .. } => "context".to_string(),
+                Case::Generated => "values from random()/default()".to_string(),
                 Case::Text { text } => match reference(text) {
                     Ref::MustNone(w) => format!("text: {}", w),
                     Ref::Values { canonical: true, .. } => "text: canonical".to_string(),
